@@ -64,6 +64,32 @@ def cases(tier):
                     out.append((hdr + '.dseg\n.org %d\n.byte 1' % (S + k - 1), ok, dict(sizes, rf=k), 'ram/.org+byte'))
                 if k <= 512:
                     out.append((hdr + '.dseg\n' + 'v%d: .byte 1\n' * k % tuple(range(k)), ok, dict(sizes, rf=k), 'ram/vars'))
+        for delta in (-1, 0, 1):
+            ok = delta <= 0
+            n, m, k = F + delta, E + delta, R + delta
+            # lines that occupy nothing after the last unit; the device chosen inside a macro; a redundant
+            # directive of the memory already selected after the origin
+            for z in ('.set done = 1', '.def tmp = r16', '#pragma AVRPART CORE CORE_VERSION V2', 'last:', '.equ fin = 2\n.message "done"'):
+                if n >= 1:
+                    out.append((hdr + '.org %d\nnop\n%s' % (n - 1, z), ok, dict(sizes, code_len=2 * n, rf=0), 'flash/.org+nop, then a line that occupies nothing'))
+                if m >= 1:
+                    out.append((hdr + '.eseg\n.byte %d\n%s' % (m, z), ok, dict(sizes, ee_len=m, rf=0), 'eeprom/.byte, then a line that occupies nothing'))
+                if k >= 1:
+                    out.append((hdr + '.dseg\n.byte %d\n%s' % (k, z), ok, dict(sizes, rf=k), 'ram/.byte, then a line that occupies nothing'))
+            if k >= 1:
+                out.append((hdr + '.dseg\n.byte %d\n.byte 0' % k, ok, dict(sizes, rf=k), 'ram/.byte, then a line that occupies nothing'))
+            if n >= 1:
+                out.append((hdr + '.org %d\n.cseg\nnop' % (n - 1), ok, dict(sizes, code_len=2 * n, rf=0), 'flash/.org, same-memory directive, nop'))
+                out.append((hdr + '.cseg\n.org %d\n.cseg\n.dw 1' % (n - 1), ok, dict(sizes, code_len=2 * n, rf=0), 'flash/.org, same-memory directive, nop'))
+            if m >= 1:
+                out.append((hdr + '.eseg\n.org %d\n.eseg\n.db 9' % (m - 1), ok, dict(sizes, ee_len=m, rf=0), 'eeprom/.org, same-memory directive, db'))
+            if k >= 1 and S + k - 1 > 0:
+                out.append((hdr + '.dseg\n.org %d\n.dseg\n.byte 1' % (S + k - 1), ok, dict(sizes, rf=k), 'ram/.org, same-memory directive, byte'))
+            for mh in ('.macro seldev\n.device %s\n.endm\nseldev\n' % name, '.macro seldev\n.device @0\n.endm\nseldev %s\n' % name):
+                if n >= 1:
+                    out.append((mh + '.org %d\nnop' % (n - 1), ok, dict(sizes, code_len=2 * n, rf=0), 'device chosen inside a macro'))
+                if k >= 0:
+                    out.append((mh + '.dseg\n.byte %d' % k, ok, dict(sizes, rf=k), 'device chosen inside a macro'))
         # unknown / second device
         out.append((hdr + '.device %s\nnop' % name, False, None, 'second device'))
         out.append(('.device %sx\nnop' % name, False, None, 'unknown device'))
@@ -115,7 +141,7 @@ def run(tier, seed, model_ok):
                 vio.append({'what': 'program that needs one unit more than the device has (or selects an unknown/second device) builds', 'source': short, 'impl': a[:60] + '...', 'expected': 'error', 'key': note})
     return {
         'evaluations': len(cs), 'distinct_nontrivial': len({c[0] for c in cs}),
-        'rule': 'every device of the table x flash/EEPROM/RAM x usage capacity-1, capacity, capacity+1 reached by .org+instruction, .org+data (even, odd .db, .dd), plain code and data lines (small devices), .byte reservations, labelled one-byte variables; second and unknown device selection; default sizes; capacities expected from the shipped part file where one exists; distinct = distinct programs',
+        'rule': 'every device of the table x flash/EEPROM/RAM x usage capacity-1, capacity, capacity+1 reached by .org+instruction, .org+data (even, odd .db, .dd), plain code and data lines (small devices), .byte reservations, labelled one-byte variables; the same followed by a line that occupies nothing (.set, .def, #pragma, a label, .equ+.message, .byte 0); an origin followed by a redundant directive of the memory already selected; the device chosen inside a called macro (literal and @0); second and unknown device selection; default sizes; capacities expected from the shipped part file where one exists; distinct = distinct programs',
         'samples': [cs[0][0], cs[7][0][:80]],
         'exhaustive': True,
         'distribution': dict(Counter(c[3] for c in cs)),
